@@ -1,6 +1,7 @@
 import CatiiProofs.KernTop
 import CatiiProofs.KernMany
 import CatiiProofs.KernManyRefine
+import CatiiProofs.KernGenBridge
 /-!
 # C08 — sorted-set kernels compute exact set algebra
 
@@ -149,6 +150,33 @@ theorem difference_wrapper (l r : Option (Array Nat)) (hl : OSorted l) (hr : OSo
       obtain ⟨out, hrun, hs, hm⟩ := difference_exact L R hl hr
       obtain ⟨h1, h2, h3⟩ := nonEmpty_spec out hs
       exact ⟨nonEmpty out, by simp [differenceW, hrun]; rfl, h1, fun x => (h2 x).trans (hm x), h3⟩
+
+/-! ### the same statements about the kernels REGENERATED from `set_operations.pyx` on every run
+
+`Catii.KernGen.set_*_merge_np` (`CatiiModel/Gen/KernelsGen.lean`) is what `tools/translate_pyx.py` makes of the current
+source: the allocated result buffer with unspecified initial content `junk`, `result_len`, the loops with their `break`s,
+every `a[i]` a checked access.  `CatiiProofs/KernGenBridge.lean` proves them equal to the hand-written models for all
+operands, so the three exactness theorems hold of what the source says NOW, whatever the buffer held before. -/
+
+theorem generated_intersect_exact (junk : Nat → Nat) (L R : Array Nat) (hL : SSorted L.toList) (hR : SSorted R.toList) :
+    ∃ out, KernGen.set_intersect_merge_np junk L R = .ok out ∧ SSorted out.toList ∧
+      ∀ x, x ∈ out.toList ↔ x ∈ L.toList ∧ x ∈ R.toList := by
+  rw [gen_intersect_eq]; exact intersect_exact L R hL hR
+
+theorem generated_union_exact (junk : Nat → Nat) (L R : Array Nat) (hL : SSorted L.toList) (hR : SSorted R.toList) :
+    ∃ out, KernGen.set_union_merge_np junk L R = .ok out ∧ SSorted out.toList ∧
+      ∀ x, x ∈ out.toList ↔ x ∈ L.toList ∨ x ∈ R.toList := by
+  rw [gen_union_eq]; exact union_exact L R hL hR
+
+theorem generated_difference_exact (junk : Nat → Nat) (L R : Array Nat) (hL : SSorted L.toList) (hR : SSorted R.toList) :
+    ∃ out, KernGen.set_difference_merge_np junk L R = .ok out ∧ SSorted out.toList ∧
+      ∀ x, x ∈ out.toList ↔ x ∈ L.toList ∧ x ∉ R.toList := by
+  rw [gen_difference_eq]; exact difference_exact L R hL hR
+
+-- non-vacuity: the generated kernels run; the initial content of the result buffer (here 7777...) never shows
+example : KernGen.set_intersect_merge_np (fun i => 7777 + i) #[0, 5, 4294967295] #[5, 4294967295] = .ok #[5, 4294967295] ∧
+    KernGen.set_union_merge_np (fun i => 7777 + i) #[0, 5, 4294967295] #[1, 5] = .ok #[0, 1, 5, 4294967295] ∧
+    KernGen.set_difference_merge_np (fun i => 7777 + i) #[0, 5, 4294967295] #[5] = .ok #[0, 4294967295] := by decide +kernel
 
 /-! Non-vacuity: strictly increasing inputs containing 0 and 2^32-1 exist and the kernels
 run on them. -/
